@@ -442,6 +442,9 @@ def create_for_single_files_subcommand(
 
     hash_format_list = sorted(hash_formats)
 
+    # every file is sealed only once, even if it is given several times (directly or as part of a folder)
+    sealed_file_paths = set()
+
     for path in single_file:
         if not os.path.isabs(path):
             path = os.path.join(os.getcwd(), path)
@@ -451,8 +454,9 @@ def create_for_single_files_subcommand(
             ):
                 for item_name, is_dir in children:
                     file_path = os.path.join(folder_path, item_name)
-                    if is_dir:
+                    if is_dir or os.path.normpath(file_path) in sealed_file_paths:
                         continue
+                    sealed_file_paths.add(os.path.normpath(file_path))
                     seal_result = seal_file_path(existing_history, file_path, hash_format_list, session)
                     # Determine success based on the first format in the list
                     # TODO: Consider checking all results.  Would it be practical to do so?
@@ -460,7 +464,8 @@ def create_for_single_files_subcommand(
                     success = seal_result[hash_format_list[0]].success
                     if not success:
                         num_failed_verifications += 1
-        else:
+        elif os.path.normpath(path) not in sealed_file_paths:
+            sealed_file_paths.add(os.path.normpath(path))
             seal_result = seal_file_path(existing_history, path, hash_format_list, session)
             success = seal_result[hash_format_list[0]].success
             if not success:
